@@ -2,16 +2,43 @@ import ShVerif.Model.C10
 namespace ShVerif.Drv.C10
 open ShVerif ShVerif.C10
 
-/-- `hdoc <quoted 0|1> <tabs 0|1> <stop-hex> <line-hex>*` → `closed <n>` | `unclosed <bool>` -/
+def itemOf : Char → Option Item
+  | 'h' => some .hdoc
+  | 'e' => some .enter
+  | 'l' => some .leave
+  | 'n' => some .newl
+  | 't' => some .tok
+  | _ => none
+
+def tokOf : String → Option Tok
+  | "newl" => some .newl
+  | "eof" => some .eof
+  | "other" => some .other
+  | _ => none
+
+/-- `hdoc <quoted 0|1> <tabs 0|1> <openNodes> <stop-hex> <line-hex>*` → `closed <n>` | `unclosed <bool>`
+    `sched <quoted 0|1> <items: h e l n t …> <stop-hex> <line-hex>*` → `unclosed <bool>` | `none`
+    `inc <tok> <openNodes> <litLen>` → `<bool>` -/
 def handle (args : List String) : String :=
   match args with
-  | "hdoc" :: q :: t :: stop :: lines =>
-    match ofHex stop, lines.mapM ofHex with
-    | some st, some ls =>
-      match scan true (q == "1") (t == "1") st { tok := .newl, openNodes := 0, litLen := 0 } ls with
+  | "hdoc" :: q :: t :: o :: stop :: lines =>
+    match ofHex stop, lines.mapM ofHex, o.toNat? with
+    | some st, some ls, some on =>
+      match scan true (q == "1") (t == "1") st (inBrackets .newl on 0) ls with
       | .closed body => s!"closed {body.length}"
       | .unclosedErr inc => s!"unclosed {inc}"
-    | _, _ => "bad-op"
+    | _, _, _ => "bad-op"
+  | "sched" :: q :: items :: stop :: lines =>
+    match items.toList.mapM itemOf, ofHex stop, lines.mapM ofHex with
+    | some its, some st, some ls =>
+      match prefixFlag its (q == "1") st ls with
+      | some b => s!"unclosed {b}"
+      | none => "none"
+    | _, _, _ => "bad-op"
+  | ["inc", t, o, l] =>
+    match tokOf t, o.toNat?, l.toNat? with
+    | some tk, some on, some ll => s!"{(inBrackets tk on ll).errIncomplete}"
+    | _, _, _ => "bad-op"
   | _ => "bad-op"
 
 end ShVerif.Drv.C10
